@@ -467,6 +467,33 @@ def weave_fn(sf, it, fc, report):
     if st[k].s != '(': raise Problem('cannot find parameter list')
     pclose = match_close(st, k)
     params_lo, params_hi = k + 1, pclose
+    # positional parameter names: `$1`, `$2`, ... in contract text stand for the 1st, 2nd, ... non-self parameter of the
+    # function as it is written today (a contract of a private helper then survives a renamed parameter)
+    pnames = []
+    a = params_lo; depth = 0; seg = []
+    for q in range(params_lo, params_hi + 1):
+        t = st[q]
+        if q == params_hi or (depth == 0 and t.s == ','):
+            if seg:
+                names = [x for x in seg if x.k == ID and x.s not in ('mut', 'ref')]
+                colon = next((i for i, x in enumerate(seg) if x.s == ':'), None)
+                if colon is not None:
+                    ids = [x for x in seg[:colon] if x.k == ID and x.s not in ('mut', 'ref')]
+                    if ids and ids[-1].s != 'self': pnames.append(ids[-1].s)
+            seg = []; continue
+        if t.k == P and t.s in '([<': depth += 1
+        elif t.k == P and t.s in ')]>': depth -= 1
+        seg.append(t)
+    def _pos(text):
+        if '$' not in text: return text
+        def rep(m):
+            i = int(m.group(1))
+            if i < 1 or i > len(pnames): raise Problem('positional parameter $%d: function has %d non-self parameter(s)' % (i, len(pnames)))
+            return pnames[i - 1]
+        return re.sub(r'\$(\d+)', rep, text)
+    fc.clauses = [(k_, t_, _pos(x_)) for (k_, t_, x_) in fc.clauses]
+    fc.entry = [_pos(x) for x in fc.entry]
+    fc.before_tail = [_pos(x) for x in fc.before_tail]
     # mut self ?
     if st[params_lo].s == 'mut' and st[params_lo + 1].s == 'self' and st[params_lo + 2].s in (',', ')'):
         edits.append((st[params_lo].a, st[params_lo + 1].a, ''))
@@ -728,6 +755,24 @@ def parse_fn_path(path):
     raise ValueError('bad fn path ' + path)
 
 
+DEMOTE = {}   # 'Type::fn@rel/file.rs' -> 'assume' | 'bare'   (set from --demote)
+
+
+def demote_contract(fc, mode):
+    """copy of a function contract without proof annotations; the function becomes `external_body`: with its clauses ('assume')
+    or without any ('bare')"""
+    import copy
+    g = copy.copy(fc)
+    g.entry = []; g.before_tail = []; g.after = []; g.before = []; g.loops = {}; g.loop_entries = {}; g.loop_ends = {}
+    g.closures = {}; g.rewrites = []; g.external_body = True
+    g.attrs = [a for a in fc.attrs if 'rlimit' not in a and 'spinoff' not in a]
+    if mode == 'bare':
+        g.clauses = []; g.ret = None
+    else:
+        g.clauses = list(fc.clauses)
+    return g
+
+
 def weave_file(srcdir, fcon, out_map, problems):
     p = os.path.join(srcdir, fcon.relpath)
     if not os.path.exists(p):
@@ -803,7 +848,20 @@ def weave_file(srcdir, fcon, out_map, problems):
                                  'what': 'function %s: %d candidates in %s' % (fc.path, len(its), fcon.relpath)}); continue
             it = its[0]
             rep = {}
-            new = weave_fn(sf, it, fc, rep)
+            demoted = None
+            want = DEMOTE.get('%s@%s' % (fc.path, fcon.relpath))
+            if want:
+                fc = demote_contract(fc, want); demoted = 'requested (%s)' % want
+                new = weave_fn(sf, it, fc, rep)
+            else:
+                try:
+                    new = weave_fn(sf, it, fc, rep)
+                except Problem as e:
+                    # the body no longer has the shape the proof annotations were written for: keep the contract as an assumption so
+                    # that the rest of the crate is still verified against it, and report the function as not verified (demoted)
+                    demoted = 'lost_anchor: %s' % e
+                    fc = demote_contract(fc, 'assume'); rep = {}
+                    new = weave_fn(sf, it, fc, rep)
             orig_line = text.count('\n', 0, st[it.kw].a) + 1
             orig_end_line = text.count('\n', 0, it.end) + 1
             meta = {'kind': 'fn', 'fn': fc.path, 'file': fcon.relpath, 'orig_line': orig_line, 'orig_end_line': orig_end_line,
@@ -811,7 +869,10 @@ def weave_file(srcdir, fcon, out_map, problems):
                     'contract': '%s:%d' % (os.path.relpath(fc.src, os.path.dirname(os.path.dirname(os.path.abspath(__file__)))), fc.lineno),
                     'tags': sorted({x for (_, t, _) in fc.clauses if t for x in t.split()[0].split(',')} | set(fcon.props)),
                     'woven_name': fc.copy_as or name, 'assumed': fc.external_body, **rep}
-            if rep['leftovers']:
+            if demoted:
+                meta['demoted'] = demoted
+                problems.append({'kind': 'demoted', 'fn': fc.path, 'file': fcon.relpath, 'what': '%s: %s' % (fc.path, demoted)})
+            if rep['leftovers'] and not demoted:
                 problems.append({'kind': 'unsupported', 'fn': fc.path, 'file': fcon.relpath,
                                  'what': 'unsafe idiom outside the rewrite table in %s: %s' % (fc.path, ', '.join(rep['leftovers']))})
             if it.impl is None:
@@ -919,7 +980,11 @@ def main():
     ap.add_argument('--contracts', nargs='+', required=True)
     ap.add_argument('--extra', nargs='*', default=[], help='name=path files copied into srcdir (vx.rs, vspec.rs ...)')
     ap.add_argument('--map', required=True)
+    ap.add_argument('--demote', nargs='*', default=[], help="'Type::fn@rel/file.rs=assume|bare': weave the function as external_body")
     a = ap.parse_args()
+    for d in a.demote:
+        k, _, m = d.rpartition('=')
+        DEMOTE[k] = m
     files, perrs = parse_contracts(a.contracts)
     problems = [{'kind': 'contract_syntax', 'what': e} for e in perrs]
     out_map = {'fns': [], 'specs': [], 'problems': problems}
@@ -945,8 +1010,8 @@ def main():
         t = t.replace(anchor, ins + anchor, 1)
         open(lib, 'w').write(t)
     json.dump(out_map, open(a.map, 'w'), indent=1)
-    bad = [p for p in problems]
-    for p_ in bad:
+    bad = [p for p in problems if p['kind'] != 'demoted']
+    for p_ in problems:
         print('weave: %s: %s' % (p_['kind'], p_['what']), file=sys.stderr)
     sys.exit(3 if bad else 0)
 
